@@ -47,8 +47,8 @@ def main():
         det["broken_checks"] = sorted(k for k, v in det["results"].items() if v["exit"] not in (0, 1))
         json.dump(det, open(f"{d}/detection.json", "w"), indent=1)
         print(f"{sid:10s} target={target} detected_by={det['detected_by']} broken={det['broken_checks']}")
-    # restore evidence of the unchanged tree
-    for pr in props:
+    # restore evidence of the unchanged tree (skipped when several runners share /verif: SEEDED_NO_RESTORE=1)
+    for pr in ([] if os.environ.get('SEEDED_NO_RESTORE') else props):
         sh(f"VERIF_REPO=/repo ./check.sh {pr} quick", cwd=ROOT)
 
 if __name__ == "__main__":
